@@ -109,7 +109,24 @@ func runVarWrites(fns []*ssa.Function, keys map[string]bool) []varWrite {
 				return
 			}
 			k, isK := an.ConstString(a[1])
-			if !isK || !keys[k] {
+			if !isK {
+				// a key taken from a list of constants (`for _, key := range []string{...}`): one write per listed key
+				seenK := map[string]bool{}
+				for _, l := range an.BackSlice(a[1], an.SliceOpts{}) {
+					if cst, isC := l.Val.(*ssa.Const); isC {
+						if ks, isS := an.ConstString(cst); isS && keys[ks] && !seenK[ks] {
+							seenK[ks] = true
+							w := varWrite{fn: f, call: ci, key: ks, meth: m}
+							if len(a) > 2 {
+								w.value = a[2]
+							}
+							out = append(out, w)
+						}
+					}
+				}
+				return
+			}
+			if !keys[k] {
 				return
 			}
 			w := varWrite{fn: f, call: ci, key: k, meth: m}
